@@ -90,6 +90,25 @@ mod vx_kani {
         }
     }
 
+    /// VRFPrivateKey::try_from refuses every byte string whose length is not 32 (lengths 0..=40 symbolic), and for 32 bytes the key
+    /// IS those bytes: secret-key material that differs only beyond byte 32 can never give the same key (complete for these lengths)
+    #[kani::proof]
+    #[kani::unwind(44)]
+    #[kani::stub(alloc::fmt::format, stub_format)]
+    fn c18_private_key_length() {
+        let buf: [u8; 40] = kani::any();
+        let n: usize = kani::any();
+        kani::assume(n <= 40);
+        let r = VRFPrivateKey::try_from(&buf[..n]);
+        if n != 32 {
+            assert!(r.is_err());
+        } else {
+            let k: usize = kani::any();
+            kani::assume(k < 32);
+            match r { Ok(key) => assert!(key.0[k] == buf[k]), Err(_) => assert!(false) }
+        }
+    }
+
     /// Proof::try_from refuses every byte string whose length is not 80 (lengths 0..=90 symbolic) without panicking
     #[kani::proof]
     #[kani::unwind(94)]
